@@ -207,6 +207,9 @@ def kernel_cases(outs, paths, hashseeds, scorer_seeds):
             cases["lex"].append(mk(k["lex"]))
             for r in k["renum"]:
                 cases["renum"].append(mk(r))
+            if h == hashseeds[0]:                   # no set order is observed here: one interpreter suffices
+                for r in k.get("dst", []):
+                    cases["dst"].append(mk(r))
             if h in hashseeds[:scorer_seeds]:      # the matrices are large literals: fewer hash seeds
                 cases["scorer"].append(mk(k["scorer"]))
             if h == hashseeds[0] and "scorer_partial" in k:
@@ -235,7 +238,7 @@ def main(tier, seed):
             for st in D.STREAMS:
                 r = driver.run_stream(run, st, cases[st.name], d, st.name, st.case_type, st.code_fn, PROP_BITS,
                                       corr_bits=CORR_BITS, shrink=False, stream_label="kernel_" + st.name,
-                                      shard=4 if st.name == "scorer" else 8 if st.name == "lex" else 16)
+                                      shard=4 if st.name == "scorer" else 8 if st.name in ("lex", "dst") else 16)
                 fails += r["prop_fail"] + r["impl_errors"]
                 corr += r["corr_fail"]
         except coqrun.CoqError as e:
